@@ -63,6 +63,11 @@ def bankOp (op : String) (args : List Int) : Option String :=
         | "w.settle" => some (triple (settleEmissions b x now))
         | _ => none
       | _ => some "bad-args"
+  else if op == "fee.collect" then
+    match args with
+    | [fi, fg, fp, v] =>
+      some (showResB ((collectFees fi fg fp v).map fun c => joinInts [c.feeI, c.feeG, c.feeP, c.toInsurance, c.toGroup, c.toProgram]))
+    | _ => some "bad-args"
   else if op.startsWith "b." then
     match parseBank args with
     | none => some "bad-args"
